@@ -1,7 +1,7 @@
 (** Property C18: every emoticon and emoji name in the tables produces its emoji (parametric in the tables). *)
 Require Import Riti.model.Base Riti.model.Chars Riti.model.Split Riti.model.Rank Riti.model.Layout Riti.model.Phonetic
         Riti.model.FixedCompose Riti.model.FixedSuggest Riti.model.TestOracle
-        Riti.proofs.Rank_Proof Riti.proofs.Phonetic_Proof Riti.proofs.C05_Proof Riti.proofs.Lists_Proof Riti.proofs.Fixed_Proof.
+        Riti.proofs.Rank_Proof Riti.proofs.Phonetic_Proof Riti.proofs.C05_Proof Riti.proofs.Lists_Proof Riti.proofs.Order_Proof Riti.proofs.Fixed_Proof.
 
 (** Phonetic, for EVERY emoticon table: outside ANSI a typed emoticon offers its emoji, and the literal typed text
     stays a candidate (when the whole text was taken as leading punctuation it is the transliteration candidate). *)
@@ -20,6 +20,27 @@ Theorem C18_emoji_names :
     forall e, In e es -> In (sg_pre Q c term ++ e ++ sg_tr Q c term) (map rstr l).
 Proof. exact emoji_names_offered. Qed.
 
+(** ... and in TABLE ORDER: the emoji items of the returned list are exactly the emoji of the name, in the order of
+    the table, for every transparent memo (every reachable one) - proved from sortedness of the list and the
+    strictly increasing numbers of the emoji (a sorted permutation of a strictly sorted family is that family). *)
+Theorem C18_emoji_in_table_order :
+  forall (Q : oracles) c m uac sels term es, c_ansi c = false -> emoticon Q term = None -> emoji_name Q (sg_word Q c term) = Some es -> I1 Q uac m ->
+    let '(_, l, _, _) := suggest Q c m uac sels term in
+    filter is_emoji l = emoji_ranked (sg_pre Q c term) (sg_tr Q c term) es 1.
+Proof. exact names_in_table_order. Qed.
+
+(** The presence of emoji never removes or reorders the other candidates: the non-emoji candidates are exactly the
+    list assembled without the emoji step (filtering commutes with the stable sort: [filter_sort]).  The side
+    condition says that no emoji text equals the raw typed text (the duplicate check of the English item looks at
+    the whole list). *)
+Theorem C18_frame :
+  forall (Q : oracles) c m uac sels term es, c_ansi c = false -> emoticon Q term = None -> emoji_name Q (sg_word Q c term) = Some es -> I1 Q uac m ->
+    rank_mem (RLast term 3) (sg_l0 Q c m uac term ++ emoji_ranked (sg_pre Q c term) (sg_tr Q c term) es 1) = rank_mem (RLast term 3) (sg_l0 Q c m uac term) ->
+    let '(_, l, _, _) := suggest Q c m uac sels term in
+    filter (fun x => negb (is_emoji x)) l =
+    sort_ranks (if english_on c && negb (str_eqb term (sg_pre Q c term)) then push_checked (sg_l0 Q c m uac term) (RLast term 3) else sg_l0 Q c m uac term).
+Proof. exact frame_names. Qed.
+
 (** Fixed method: the emoticon's emoji / all emoji of the Bengali name (looked up without the non-joiners that
     traditional joining inserted) are in the sorted list before the cut at nine, wrapped like the word. *)
 Theorem C18_fixed_emoticon :
@@ -30,6 +51,12 @@ Theorem C18_fixed_names :
     emoji_bn Q (filter (fun ch => negb (ch =? ZWNJ)) (ds_word c buffer)) = Some es -> In e es ->
     In (ds_first c buffer ++ e ++ ds_last c buffer) (map rstr (sort_ranks (ds_l3 Q c buffer typed))).
 Proof. exact ds_emoji_names. Qed.
+
+Theorem C18_fixed_names_in_table_order :
+  forall (Q : oracles) c buffer typed es, x_ansi c = false -> emoticon Q typed = None ->
+    emoji_bn Q (filter (fun ch => negb (ch =? ZWNJ)) (ds_word c buffer)) = Some es ->
+    filter is_emoji (sort_ranks (ds_l3 Q c buffer typed)) = emoji_ranked (ds_first c buffer) (ds_last c buffer) es 1.
+Proof. exact ds_names_in_table_order. Qed.
 
 (** emoji items carry the numbers 1, 2, 3 ... in table order *)
 Theorem C18_emoji_numbers_follow_table_order :
@@ -47,3 +74,6 @@ Proof. vm_compute. reflexivity. Qed.
 Print Assumptions C18_emoticon.
 Print Assumptions C18_emoji_names.
 Print Assumptions C18_fixed_names.
+Print Assumptions C18_emoji_in_table_order.
+Print Assumptions C18_frame.
+Print Assumptions C18_fixed_names_in_table_order.
